@@ -275,6 +275,8 @@ func referrerSplit(inBytes []byte, limit int64) ([][]byte, error) {
 
 // referrerAdd adds a new referrer entry to a given subject.
 func (s *Server) referrerAdd(repo store.Repo, subject digest.Digest, desc types.Descriptor) error {
+	s.muReferrer.Lock()
+	defer s.muReferrer.Unlock()
 	index, err := repo.IndexGet()
 	if err != nil {
 		return err
@@ -339,6 +341,8 @@ func (s *Server) referrerAdd(repo store.Repo, subject digest.Digest, desc types.
 
 // referrerDelete removes a referrer entry from a subject.
 func (s *Server) referrerDelete(repo store.Repo, subject digest.Digest, desc types.Descriptor) error {
+	s.muReferrer.Lock()
+	defer s.muReferrer.Unlock()
 	// get the index.json
 	index, err := repo.IndexGet()
 	if err != nil {
